@@ -771,6 +771,27 @@ pub fn earley_word(a: &Analysis, word: &[u8]) -> Result<bool, usize> {
     Ok(e.accepts())
 }
 
+/// The grammar without the productions that mention an unproductive nonterminal (on either side): it has
+/// the same sentences, and in it every prefix that survives Earley's scanner can be extended to a sentence.
+pub fn reduced(g: &Grammar) -> Grammar {
+    let a = Analysis::new(g);
+    let ok = |s: &Sym| match s {
+        Sym::N(x) => a.productive[*x as usize],
+        Sym::T(_) => true,
+    };
+    Grammar { n: g.n, t: g.t, prods: g.prods.iter().filter(|(l, rhs)| a.productive[*l as usize] && rhs.iter().all(ok)).cloned().collect() }
+}
+
+/// The statement of C03 read literally: the smallest index i such that word[0..=i] cannot be extended to
+/// any sentence; None if the whole word can (it is a sentence or a proper prefix of one).
+/// `reduced_analysis` must be the analysis of `reduced(g)`.
+pub fn literal_error_index(reduced_analysis: &Analysis, word: &[u8]) -> Option<usize> {
+    match earley_word(reduced_analysis, word) {
+        Err(i) => Some(i),
+        Ok(_) => None,
+    }
+}
+
 // ---------------------------------------------------------------------------------------------
 
 #[derive(Clone, Copy, Debug, PartialEq, Eq, Hash, PartialOrd, Ord)]
